@@ -135,7 +135,7 @@ R6 = {
  "C14": "The corpus is spread over three directory levels; the section oracle takes 'which patterns have findings in the corpus' from the library of the same build; tolerant spellings of documented names are not treated as unknown names; a run counts as successful when it completes and writes its report, whatever its exit status.",
  "C15": "The binary pass also analyses two layouts of one body under one file name in sibling directories.",
  "C10": "A container counts as reported by a reported line anywhere inside it (not inside a nested verdict's construct).",
- "C02": "For container-level findings (contract, struct) the reported line may be the first line of the container or of one of its members.",
+
  "C03": "File labels are compared by their last path component; keys without findings and empty line sets are not findings.",
  "C12": "A vulnerability pattern the property does not name may stand under any severity heading.",
 }
